@@ -18,7 +18,8 @@ RULE = (
     "probe on the generator function t, with {start, advance, close, drop} of one generator of t as extra "
     "operations (what the generator body itself delivers is not asserted, only the state and every call); "
     "W2 and W3 also have a call inside a block shielded by no_overlay() (nothing is delivered) and an "
-    "exception leaving such a block as operations; each history is replayed on a fresh world through the real API with a boring model (set of "
+    "exception leaving such a block as operations, W3 an overlay entered, used and left inside a copy of the "
+    "current context; each history is replayed on a fresh world through the real API with a boring model (set of "
     "active probes => expected per-probe streams) in lock-step; after every step: every active probe got "
     "exactly the expected new events, inactive probes none, instrumentation counters equal the model's, "
     "and at quiescence f and g run their original code objects, no handler collection is installed, "
@@ -154,6 +155,10 @@ class System:
             # a block shielded from every overlay (ptera.overlay.no_overlay): a call inside it, and
             # an exception leaving it
             ops += [("shield", "call"), ("shield", "raise")]
+        if self.wname == "W3":
+            # inside a copy of the current context (what a worker thread started with copy_context().run
+            # sees): one more overlay on h is entered, h is called, the overlay is left
+            ops.append(("ctxrun",))
         if self.wname == "W5":
             ops += [("gen", "start")] if gen == "none" else [("gen", "next"), ("gen", "close"), ("gen", "drop")]
         return ops
@@ -170,6 +175,12 @@ class System:
             return (act, wstack[:-1], calls, gen), "ok"
         if op[0] == "act_bad":
             return model, "refused"
+        if op[0] == "ctxrun":
+            x = calls + 1
+            active = list(act) + list(wstack) + [8]
+            exp = {s: expected_events(s, "h", x, False) * active.count(s) for s in set(active)}
+            exp = tuple(sorted((s, tuple(map(_canon, e))) for s, e in exp.items() if e))
+            return (act, wstack, x, gen), ("result", (x + 5) * 3, exp)
         if op[0] == "shield":
             if op[1] == "call":
                 return (act, wstack, calls + 1, gen), ("result", (calls + 2) * 2, ())
@@ -258,6 +269,20 @@ class System:
                 w.depth[op[1]] = w.depth.get(op[1], 0) + 1
                 p.__enter__()
                 return "ok"
+            if op[0] == "ctxrun":
+                import contextvars
+
+                for s in w.streams.values():
+                    del s[:]
+                w.calls += 1
+
+                def inner():
+                    with self._make(w, 8):
+                        return w.h(w.calls)
+
+                r = contextvars.copy_context().run(inner)
+                got = {s: list(e) for s, e in w.streams.items() if e}
+                return ("result", r, tuple(sorted((s, tuple(map(_canon, e))) for s, e in got.items())))
             if op[0] == "shield":
                 from ptera.overlay import no_overlay
 
